@@ -76,9 +76,10 @@ fn encv<F: Float>(a: &Array1<F>, s: f64) -> (Value, i64) {
     }
     (Value::Array(o), bad)
 }
-/// digest of the bit patterns (as f64 images; f32 -> f64 is exact and injective), row-major
+/// digest of the bit patterns (as f64 images; f32 -> f64 is exact and injective), row-major;
+/// -0.0 and +0.0 are not distinguished (as in `vh::key64`)
 fn dg<F: Float, D: Data<Elem = F>>(a: &ArrayBase<D, Ix2>) -> Value {
-    let v: Vec<f64> = a.iter().map(|x| f(*x)).collect();
+    let v: Vec<f64> = a.iter().map(|x| f(*x)).map(|x| if x == 0.0 { 0.0 } else { x }).collect();
     digest_f64(v.iter())
 }
 
